@@ -32,6 +32,80 @@ theorem C09_check_dup_swap (a b : List Pattern) (p : Str) :
 example : check ([Pattern.new .global "!a".toList] ++ [Pattern.new .global "*".toList]) "/a".toList = .whitelist ∧
     check ([Pattern.new .global "*".toList] ++ [Pattern.new .global "!a".toList]) "/a".toList = .whitelist := by decide
 
+/-! ## the verdict is a function of the rule list alone — whatever its length, however it is chunked -/
+
+/-- **Whitelist wins, at every size.**  For a rule list of any length the verdict is: `whitelist` iff some
+    whitelist pattern matches; otherwise `ignore` iff some ignore pattern matches; otherwise `noMatch`.
+    No clause depends on the number of patterns or on how a search over them is split up. -/
+theorem C09_check_cases (rules : List Pattern) (p : Str) :
+    (check rules p = .whitelist ↔ ∃ r ∈ rules, r.white = true ∧ r.m p = true) ∧
+    (check rules p = .ignore ↔ (¬ ∃ r ∈ rules, r.white = true ∧ r.m p = true) ∧ ∃ r ∈ rules, r.white = false ∧ r.m p = true) ∧
+    (check rules p = .noMatch ↔ ¬ ∃ r ∈ rules, r.m p = true) := by
+  unfold check
+  by_cases hw : rules.any (fun r => r.white && r.m p) = true
+  · have hw' : ∃ r ∈ rules, r.white = true ∧ r.m p = true := by
+      rw [List.any_eq_true] at hw; obtain ⟨r, hr, h⟩ := hw; exact ⟨r, hr, by simpa using h⟩
+    simp only [hw, if_true, true_iff, reduceCtorEq, false_iff, not_and]
+    exact ⟨hw', fun h => absurd hw' h, fun h => by obtain ⟨r, hr, _, hm⟩ := hw'; exact h ⟨r, hr, hm⟩⟩
+  · have hw' : ¬ ∃ r ∈ rules, r.white = true ∧ r.m p = true := by
+      rintro ⟨r, hr, h1, h2⟩; exact hw (List.any_eq_true.2 ⟨r, hr, by simp [h1, h2]⟩)
+    simp only [hw, Bool.false_eq_true, if_false]
+    by_cases hi : rules.any (fun r => !r.white && r.m p) = true
+    · have hi' : ∃ r ∈ rules, r.white = false ∧ r.m p = true := by
+        rw [List.any_eq_true] at hi; obtain ⟨r, hr, h⟩ := hi; exact ⟨r, hr, by simpa using h⟩
+      simp only [hi, if_true, reduceCtorEq, false_iff, true_iff]
+      exact ⟨hw', ⟨hw', hi'⟩, fun h => by obtain ⟨r, hr, _, hm⟩ := hi'; exact h ⟨r, hr, hm⟩⟩
+    · have hi' : ¬ ∃ r ∈ rules, r.white = false ∧ r.m p = true := by
+        rintro ⟨r, hr, h1, h2⟩; exact hi (List.any_eq_true.2 ⟨r, hr, by simp [h1, h2]⟩)
+      simp only [hi, Bool.false_eq_true, if_false, reduceCtorEq, false_iff, true_iff]
+      refine ⟨hw', fun h => hi' h.2, ?_⟩
+      rintro ⟨r, hr, hm⟩
+      cases hwh : r.white
+      · exact hi' ⟨r, hr, hwh, hm⟩
+      · exact hw' ⟨r, hr, hwh, hm⟩
+
+theorem C09_whitelist_wins (rules : List Pattern) (p : Str) (r : Pattern) (hr : r ∈ rules) (hw : r.white = true)
+    (hm : r.m p = true) : check rules p = .whitelist :=
+  (C09_check_cases rules p).1.2 ⟨r, hr, hw, hm⟩
+
+/-- how two partial verdicts combine: a whitelist verdict of either part wins, then an ignore verdict -/
+def mergeVerdict : MatchResult → MatchResult → MatchResult
+  | .whitelist, _ => .whitelist
+  | _, .whitelist => .whitelist
+  | .ignore, _ => .ignore
+  | _, .ignore => .ignore
+  | .noMatch, .noMatch => .noMatch
+
+/-- **Chunking independence.**  Searching two parts of the rule list separately (in any manner: sequentially, in
+    parallel, by work stealing) and combining the partial verdicts with `mergeVerdict` gives the verdict of the whole
+    list; hence for any split into any number of chunks of any sizes (`C09_check_chunks`).  A search that lets *any*
+    match win instead (e.g. one `find_any` over whitelist and ignore patterns together) is not this function. -/
+theorem C09_check_chunked (l1 l2 : List Pattern) (p : Str) :
+    check (l1 ++ l2) p = mergeVerdict (check l1 p) (check l2 p) := by
+  unfold check
+  simp only [List.any_append]
+  cases l1.any (fun r => r.white && r.m p) <;> cases l2.any (fun r => r.white && r.m p) <;>
+    cases l1.any (fun r => !r.white && r.m p) <;> cases l2.any (fun r => !r.white && r.m p) <;> rfl
+
+theorem C09_check_chunks : ∀ (chunks : List (List Pattern)) (p : Str),
+    check chunks.flatten p = (chunks.map (fun c => check c p)).foldr mergeVerdict .noMatch
+  | [], p => by simp [check]
+  | c :: cs, p => by
+    simp only [List.flatten_cons, List.map_cons, List.foldr_cons]
+    rw [C09_check_chunked, C09_check_chunks cs p]
+
+/-- a rule set of 40 patterns (`*.dat`, 23 unrelated lines, 16 `!keep-N.dat`): the whitelisted file is kept, the
+    other one ignored, a third not matched — the verdict does not change at 32 patterns or anywhere else -/
+def exLarge : List Pattern :=
+  (["*.dat"] ++ (List.range 23).map (fun i => "*.scratch" ++ toString i) ++
+    (List.range 16).map (fun i => "!keep-" ++ toString (i + 1) ++ ".dat")).map
+    (fun l => Pattern.new (.file "data".toList) l.toList)
+
+example : exLarge.length = 40 ∧ check exLarge "/data/keep-7.dat".toList = .whitelist ∧
+    check exLarge "/data/drop-7.dat".toList = .ignore ∧ check exLarge "/data/notes.md".toList = .noMatch ∧
+    check (exLarge.take 31) "/data/keep-7.dat".toList = .whitelist ∧ check exLarge.reverse "/data/keep-16.dat".toList = .whitelist := by
+  decide
+
 /-! ## a glob with a literal prefix matches only paths with that prefix -/
 
 /-- `LiteralPrefix`: the glob is `d ++ r` with `d` free of `* ? [ \` -/
@@ -314,6 +388,14 @@ open Ign in
 #print axioms C09_check_perm
 open Ign in
 #print axioms C09_check_dup_swap
+open Ign in
+#print axioms C09_check_cases
+open Ign in
+#print axioms C09_whitelist_wins
+open Ign in
+#print axioms C09_check_chunked
+open Ign in
+#print axioms C09_check_chunks
 open Ign in
 #print axioms C09_literal_prefix
 open Ign in
